@@ -377,7 +377,17 @@ def run(ctx):
                 site = m.site(n, fn)
                 if isinstance(p, ast.Attribute) and isinstance(p._parent, ast.Call) and p._parent.func is p:
                     meth = p.attr
-                    if meth not in SESSION_METHODS_OK:
+                    if meth == 'delete' and len(p._parent.args) == 1 and isinstance(p._parent.args[0], ast.Name) and not p._parent.keywords:
+                        # session.delete(obj): allowed for an object that came through the access-control choke point under Operation.DESTROY
+                        g_ = CFG(fn)
+                        rd_ = ReachingDefs(g_)
+                        from ..dataflow import node_of_expr as _noe
+                        vals = rd_.values(_noe(g_, p._parent), p._parent.args[0].id)
+                        okd = bool(vals) and all(isinstance(v, ast.Call) and U(v.func) == 'self._get_object_with_access_controls' and len(v.args) >= 2
+                                                 and enum_member(v.args[1]) == ('Operation', 'DESTROY') for v in vals)
+                        ctx.check(okd, 'C03.R1', 'KmipEngine.%s|_data_session.delete' % name, site, 'session.delete of the object the choke point returned for Operation.DESTROY',
+                                  'session.delete is applied to an object that did not come through the access-control choke point for Operation.DESTROY')
+                    elif meth not in SESSION_METHODS_OK:
                         ctx.fail('C03.R1', 'KmipEngine.%s|_data_session.%s' % (name, meth), site,
                                  'store access through session.%s is outside the reviewed set (add/commit/query)' % meth)
                     elif meth == 'query':
